@@ -858,3 +858,77 @@ def _payload(f, o, trail):
             a = _arg_root(f, f.blocks[d[2]]["term"]["args"][0])
             out.append(("arg", a))
     return out
+
+
+VEC_MUTATORS = re.compile(r"Vec::<.*>::(pop|push|truncate|retain|retain_mut|drain|remove|swap_remove|clear|extend_from_slice|insert|"
+                          r"append|split_off|dedup|resize|set_len|splice|as_mut_slice|iter_mut)$|Extend<.*>>::extend$|"
+                          r"DerefMut>::deref_mut$|IndexMut<.*>>::index_mut$|<impl \[T\]>::(reverse|sort|fill|swap|copy_from_slice)$")
+CARRIERS = re.compile(r"ops::Try>::branch$|FromResidual.*from_residual$|::with_context$|::context$|::map_err$|Option::<.*>::transpose$|"
+                      r"Result::<.*>::transpose$|Result::<.*>::ok$|::unwrap$|::expect$|::unwrap_or_default$|Option::<.*>::(map|and_then|filter)$|"
+                      r"Result::<.*>::(map|and_then)$|::into$|::from$")
+
+
+def _byte_mutations(prog, g, starts, depth=0):
+    """(mutating Vec operations applied to the value held in `starts` of g - followed through `?`, map, transpose and the
+    closures it is mapped through -, does it reach g's return value)"""
+    bad = []
+    seen = set()
+    work = list(starts)
+    reaches_ret = False
+    while work:
+        l = work.pop()
+        if l in seen:
+            continue
+        seen.add(l)
+        for u in forward_uses(g, l):
+            if u[0] == "ret":
+                reaches_ret = True
+            elif u[0] == "agg":
+                work.append(u[2]["dst"]["l"])
+            elif u[0] == "call":
+                t2, ai = u[2], u[3]
+                c2 = callee(t2)
+                if VEC_MUTATORS.search(c2) and ai == 0:
+                    bad.append((c2.split("::")[-1] + (" in a mapped closure" if depth else ""), t2))
+                    continue
+                if ai == 0 and CARRIERS.search(c2):
+                    if t2.get("dst"):
+                        work.append(t2["dst"]["l"])
+                    if depth < 4:
+                        for a in t2["args"][1:]:
+                            h = _closure_fn(prog, g, a)
+                            if h is not None and h.argc >= 2:
+                                b2, _ = _byte_mutations(prog, h, [2], depth + 1)
+                                bad.extend((x, t2) for x, _ in b2)
+    return bad, reaches_ret
+
+
+def rule_report_bytes(ctx, prop):
+    """the bytes of a unified / standard diff are the producer's: create_diff hands them to the caller as returned"""
+    rep = Report(prop, "R-DIFFBYTES", "in create_diff, the buffer returned by output_diff_unified / output_diff reaches the return value "
+                                      "without a mutating Vec operation (in the function or in a closure it is mapped through): a unified "
+                                      "diff's bytes are file content, including the last line's own terminator")
+    for cfg, prog in ctx.programs.items():
+        prog = _view(prog)
+        f = prog.fn("stylua", "create_diff")
+        if not rep.anchor(f is not None, "stylua::create_diff", cfg):
+            continue
+        prods = [(b, t) for b, t in f.calls() if re.search(r"output_diff::output_diff(_unified)?$", callee(t))]
+        if not rep.anchor(len(prods) >= 2, f"calls of output_diff / output_diff_unified in create_diff ({len(prods)})", cfg):
+            continue
+        for b, t in prods:
+            name = callee(t).split("::")[-1]
+            bad, reaches_ret = _byte_mutations(prog, f, [t["dst"]["l"]] if t.get("dst") else [])
+            ok = not bad and reaches_ret
+            rep.inst(f"{f.key} bytes of {name} returned as produced", {}, cfg, ok=ok)
+            if bad:
+                ops = sorted({x for x, _ in bad})
+                rep.violation(f"{f.key} diff-bytes-modified producer={name} by={','.join(ops)}",
+                              f"create_diff modifies the buffer produced by {name} ({', '.join(ops)}) before returning it: the bytes "
+                              f"of a unified diff are file content (a trailing `\\r` before the final newline belongs to the last "
+                              f"line), so the printed diff no longer reconstructs the formatted file", f.loc(bad[0][1]["sp"]), cfg)
+            elif not reaches_ret:
+                rep.violation(f"{f.key} diff-bytes-not-returned producer={name}",
+                              f"the buffer produced by {name} does not reach create_diff's return value through the carriers the rule "
+                              f"knows (`?`, context, map, transpose, Ok/Some): it is rebuilt or replaced on the way", f.loc(t["sp"]), cfg)
+    return rep
